@@ -188,6 +188,7 @@ package core
 //@   props C16 C06 C01
 //@   terminates
 //@   requires l != nil
+//@   retains chars
 //@   assigns *l
 //@   ensures *l == chars
 
